@@ -128,17 +128,23 @@ impl ActTask for Step {
         if state.is_running() {
             let tasks = task.children();
             let mut count = 0;
+            // every branch that has become ready is resumed now, not only the first one
+            let mut is_resumed = false;
             for task in tasks.iter() {
                 if task.state().is_pending() && task.is_ready() {
                     // resume task
                     task.set_state(TaskState::Running);
                     ctx.runtime.scher().emit_task_event(task)?;
                     task.exec(ctx)?;
-                    return Ok(false);
+                    is_resumed = true;
+                    continue;
                 }
                 if task.is_chain_completed() {
                     count += 1;
                 }
+            }
+            if is_resumed {
+                return Ok(false);
             }
 
             if count == tasks.len() {
